@@ -19,6 +19,7 @@ import (
 	"encoding/json"
 	"errors"
 	"fmt"
+	"maps"
 	"math"
 	"reflect"
 	"strconv"
@@ -749,6 +750,13 @@ func (r *Repository) MergeMutable(x *Repository) (mutated bool, err error) {
 			mutated = true
 			r.RawConfig[k] = v
 		}
+	}
+
+	// Like RawConfig, a description that carries no metadata does not say
+	// anything about the stored metadata.
+	if x.Metadata != nil && !maps.Equal(r.Metadata, x.Metadata) {
+		mutated = true
+		r.Metadata = maps.Clone(x.Metadata)
 	}
 
 	if r.URL != x.URL {
